@@ -65,6 +65,8 @@ example : rvVel 0#32 = -2048 := by decide
 (this is the value the translator observed on the real kernel). -/
 theorem rvPos_top_bit : rvPos 0x80000000#32 = rvPosTopBit ∧ rvPosTopBit = -524288 := by decide
 
+example : rvPos 0x80000000#32 < 0 := by decide
+
 /-- The position depends only on bits 12–31 and the velocity only on bits 0–11; in particular both are
 given by the tables over the upper 20 / lower 12 bits that the exhaustive check uses. -/
 theorem rv_fields_independent (w w' : BitVec 32) :
@@ -307,6 +309,9 @@ theorem kernel_spec {ι : Type} (slots : List (Slot ι)) (xs : List ι)
   rw [runSlots_ok xs 0 _ hf]
   simp [List.map_map, Function.comp]
 
+example : kernel [⟨some 2, fun (w : BitVec 64) => .int (pid w)⟩, ⟨none, fun w => .int (tagged w)⟩] [5#64, 6#64] =
+    .ok [[(0, .int 5), (1, .int 6)], []] := by decide
+
 /-- If some requested output array is shorter than the input, the kernel faults with an out-of-bounds store. -/
 theorem kernel_oob {ι : Type} (slots : List (Slot ι)) (xs : List ι)
     (h : ∃ s ∈ slots, ∃ r, s.rows = some r ∧ r < xs.length) :
@@ -317,8 +322,6 @@ theorem kernel_oob {ι : Type} (slots : List (Slot ι)) (xs : List ι)
     exact ⟨(s, []), List.mem_map.mpr ⟨s, hs, rfl⟩, r, hr, by simpa using hlt⟩
   · intro p _ r _; exact Nat.zero_le r
 
-example : kernel [⟨some 2, fun (w : BitVec 64) => .int (pid w)⟩, ⟨none, fun w => .int (tagged w)⟩] [5#64, 6#64] =
-    .ok [[(0, .int 5), (1, .int 6)], []] := by decide
 example : kernel [⟨some 1, fun (w : BitVec 64) => .int (pid w)⟩] [5#64, 6#64] = .error .oob := by decide
 
 /-- a supplied array must be viewable as `(-1, 3)` -/
